@@ -51,13 +51,21 @@ theorem needed_none {c : Change} (h : c.old = none) (caller : Key) :
     needed c caller = Ingest.needRight none caller := by
   unfold needed Ingest.needRight; rw [h]
 
-/-- **row-level agreement, intended behaviour.** For a change that writes row `n` into room `rid` at date
-    `now`, whose previous version (if any) is of the same entity and was in a room, the local right check and
-    the peer's `validate_node` give the same verdict. -/
-theorem row_verdict_none {rooms : List Room} {caller : Key} {now : Int} {c : Change} {n : Row} {rid : Id}
+/-- the change removes no reference signed by somebody else, or the model is the one that does not look at that -/
+def OwnRemovals (df : Defects) (caller : Key) (c : Change) : Prop :=
+  df.refRemovalRightOnRowAuthor = true ∨ c.edgeDels.any (fun e => e.author != caller) = false
+
+/-- **row-level agreement, intended behaviour of the row rule.** For a change that writes row `n` into room `rid` at
+    date `now`, whose previous version (if any) is of the same entity and was in a room, and that removes no reference
+    of somebody else (`OwnRemovals`: those need more than the row rule, see `change_verdict_none`), the local right
+    check and the peer's `validate_node` give the same verdict. -/
+theorem row_verdict_of {df : Defects} {rooms : List Room} {caller : Key} {now : Int} {c : Change} {n : Row} {rid : Id}
+    (hdf : df.oldRoomLookup = false) (hown : OwnRemovals df caller c)
     (hroom : c.roomId = some rid) (hn : n.room = some rid) (he : n.entity = c.entity) (hd : n.mdate = now)
     (hold : ∀ o, c.old = some o → o.entity = c.entity ∧ o.room ≠ none) :
-    localOk Defects.none rooms caller now c = peerOk Ingest.Defects.none rooms caller c n := by
+    localOk df rooms caller now c = peerOk Ingest.Defects.none rooms caller c n := by
+  have hx : (!df.refRemovalRightOnRowAuthor && c.edgeDels.any (fun e => e.author != caller)) = false := by
+    rcases hown with h | h <;> simp [h]
   unfold localOk peerOk validateChange Ingest.validateNode
   cases hco : c.old with
   | none =>
@@ -66,8 +74,8 @@ theorem row_verdict_none {rooms : List Room} {caller : Key} {now : Int} {c : Cha
     | none => simp [hroom, hr, toInNode, signRow, toNodeRow, hn, canIn_peer, Except.toBool, Ingest.Defects.none]
     | some room =>
       cases hc : room.can caller c.entity now (Ingest.needRight none caller) <;>
-        simp [hroom, hr, hc, toInNode, signRow, toNodeRow, hn, he, hd, canIn_peer, Except.toBool,
-          Ingest.Defects.none, Defects.none]
+        simp [hroom, hr, hc, hx, toInNode, signRow, toNodeRow, hn, he, hd, canIn_peer, Except.toBool,
+          Ingest.Defects.none, hdf]
   | some o =>
     obtain ⟨hoe, hor⟩ := hold o hco
     rw [needed_some hco]
@@ -80,25 +88,27 @@ theorem row_verdict_none {rooms : List Room} {caller : Key} {now : Int} {c : Cha
       | some room =>
         by_cases heq : oldRid = rid
         · cases hc : room.can caller c.entity now (Ingest.needRight (some o.author) caller) <;>
-            simp [hroom, hr, hc, hro, heq, hoe, toInNode, signRow, toNodeRow, hn, he, hd, canIn_peer, Except.toBool,
-              Ingest.Defects.none, Defects.none]
+            simp [hroom, hr, hc, hx, hro, heq, hoe, toInNode, signRow, toNodeRow, hn, he, hd, canIn_peer, Except.toBool,
+              Ingest.Defects.none, hdf]
         · cases hg : getRoom rooms oldRid with
           | none =>
             simp [hroom, hr, hg, hro, heq, hoe, toInNode, signRow, toNodeRow, hn, he, hd, canIn_peer, Except.toBool,
-              Ingest.Defects.none, Defects.none]
+              Ingest.Defects.none, hdf]
           | some oldRoom =>
             cases hc1 : oldRoom.can caller c.entity now (Ingest.needRight (some o.author) caller) <;> cases hc : room.can caller c.entity now (Ingest.needRight (some o.author) caller) <;>
-              simp [hroom, hr, hg, hc, hc1, hro, heq, hoe, toInNode, signRow, toNodeRow, hn, he, hd, canIn_peer,
-                Except.toBool, Ingest.Defects.none, Defects.none]
+              simp [hroom, hr, hg, hc, hc1, hx, hro, heq, hoe, toInNode, signRow, toNodeRow, hn, he, hd, canIn_peer,
+                Except.toBool, Ingest.Defects.none, hdf]
 
-/-- **row-level agreement, any switches.** For a change that does not move the row to another room and whose
-    previous version (if any) is of the same entity and was in a room, the local right check and the peer's
-    `validate_node` agree whatever the switches of the two models are. -/
+/-- **row-level agreement, any switches.** For a change that does not move the row to another room, whose
+    previous version (if any) is of the same entity and was in a room, and that removes no reference of somebody
+    else, the local right check and the peer's `validate_node` agree whatever the switches of the two models are. -/
 theorem row_verdict_any (df : Defects) (d : Ingest.Defects) {rooms : List Room} {caller : Key} {now : Int}
-    {c : Change} {n : Row} {rid : Id}
+    {c : Change} {n : Row} {rid : Id} (hown : OwnRemovals df caller c)
     (hroom : c.roomId = some rid) (hn : n.room = some rid) (he : n.entity = c.entity) (hd : n.mdate = now)
     (hold : ∀ o, c.old = some o → o.entity = c.entity ∧ o.room ≠ none) (hnm : NoMove c) :
     localOk df rooms caller now c = peerOk d rooms caller c n := by
+  have hx : (!df.refRemovalRightOnRowAuthor && c.edgeDels.any (fun e => e.author != caller)) = false := by
+    rcases hown with h | h <;> simp [h]
   unfold localOk peerOk validateChange Ingest.validateNode
   cases hco : c.old with
   | none =>
@@ -107,7 +117,7 @@ theorem row_verdict_any (df : Defects) (d : Ingest.Defects) {rooms : List Room} 
     | none => simp [hroom, hr, toInNode, signRow, toNodeRow, hn, canIn_peer, Except.toBool]
     | some room =>
       cases hc : room.can caller c.entity now (Ingest.needRight none caller) <;>
-        simp [hroom, hr, hc, toInNode, signRow, toNodeRow, hn, he, hd, canIn_peer, Except.toBool]
+        simp [hroom, hr, hc, hx, toInNode, signRow, toNodeRow, hn, he, hd, canIn_peer, Except.toBool]
   | some o =>
     obtain ⟨hoe, hor⟩ := hold o hco
     rw [needed_some hco]
@@ -120,6 +130,366 @@ theorem row_verdict_any (df : Defects) (d : Ingest.Defects) {rooms : List Room} 
         simp [hroom, hr, toInNode, signRow, toNodeRow, hn, canIn_peer, Except.toBool]
       | some room =>
         cases hc : room.can caller c.entity now (Ingest.needRight (some o.author) caller) <;>
-          simp [hroom, hr, hc, hro, heq, hoe, toInNode, signRow, toNodeRow, hn, he, hd, canIn_peer, Except.toBool]
+          simp [hroom, hr, hc, hx, hro, heq, hoe, toInNode, signRow, toNodeRow, hn, he, hd, canIn_peer, Except.toBool]
+
+/-! ### references and deletion records
+
+What the peer's rules for references (`AddEdges`, authorisation_service.rs:357-382) and for deletion records
+(`validate_edge_deletions`, `validate_node_deletions`) say about what a local operation sends. -/
+
+/-- `EntityRight::new` (room.rs:300-313): a right that grants all rows grants own rows. Every room built by room
+    mutations, reloaded or imported holds such rights only (`Right.new`, `RightRow.toRight false`). -/
+def Normalised (room : Room) : Prop := ∀ a ∈ room.auths, ∀ x ∈ a.rights, x.mutAll = true → x.mutSelf = true
+
+theorem can_all_self {room : Room} (hn : Normalised room) {k : Key} {e : Ent} {d : Int}
+    (h : room.can k e d .mutateAll = true) : room.can k e d .mutateSelf = true := by
+  obtain ⟨a, ha, hm, hc⟩ := (Room.can_iff room k e d .mutateAll).mp h
+  refine (Room.can_iff room k e d .mutateSelf).mpr ⟨a, ha, hm, ?_⟩
+  obtain ⟨x, hg, hx⟩ := (Auth.can_iff a e d .mutateAll).mp hc
+  refine (Auth.can_iff a e d .mutateSelf).mpr ⟨x, ?_, hx⟩
+  have hmem : x ∈ a.rights := by
+    rcases hx with h1 | ⟨_, h1⟩
+    · exact (glast_some_mem Right.entity Right.validFrom ((rightAt_eq_glast _ _ _) ▸ h1)).1
+    · exact (glast_some_mem Right.entity Right.validFrom ((rightAt_eq_glast _ _ _) ▸ h1)).1
+  exact hn a ha x hmem hg
+
+/-- `room.can` in the room named `rid` of the list (`false` when there is none) -/
+def canB (rooms : List Room) (rid : Id) (k : Key) (e : Ent) (d : Int) (rt : RightType) : Bool :=
+  match getRoom rooms rid with
+  | some rm => rm.can k e d rt
+  | none => false
+
+theorem canIn_eq_canB {p : Ingest.Inst} {rooms : List Room} (hp : p.rooms = rooms) (r : Nat) (k : Key) (e : Ent)
+    (d : Int) (rt : RightType) : Ingest.canIn p r k e d rt = canB rooms r k e d rt := by
+  subst hp; rfl
+
+theorem canB_all_self {rooms : List Room} {rid : Id} (hn : ∀ room, getRoom rooms rid = some room → Normalised room)
+    {k : Key} {e : Ent} {d : Int} (h : canB rooms rid k e d .mutateAll = true) :
+    canB rooms rid k e d .mutateSelf = true := by
+  unfold canB at h ⊢
+  cases hr : getRoom rooms rid with
+  | none => rw [hr] at h; cases h
+  | some room => rw [hr] at h; exact can_all_self (hn room hr) h
+
+/-- the deletion record of a removed reference (`EdgeDeletionEntry::build`) -/
+def tombOf (rid : Id) (caller : Key) (now : Int) (e : EdgeRow) : EdgeTomb :=
+  { room := rid, src := e.src, label := e.label, dest := e.dest, cdate := e.cdate, ddate := now, author := caller }
+
+/-- a deletion record as it arrives at a peer; `se`: the (short) entity of the source row -/
+def toEdgeDel (se : Ent) (t : EdgeTomb) : Ingest.EdgeDel :=
+  { room := t.room, src := t.src, srcEnt := se, dst := t.dest, label := t.label, cdate := t.cdate, ddate := t.ddate,
+    key := t.author }
+
+def toNodeDel (t : NodeTomb) : Ingest.NodeDel :=
+  { room := t.room, id := t.id, ent := t.entity, mdate := t.mdate, ddate := t.ddate, key := t.author }
+
+/-- a reference as it arrives at a peer, validly signed -/
+def toInEdge (se : Ent) (e : EdgeRow) : Ingest.InEdge :=
+  { row := { src := e.src, srcEnt := se, label := e.label, dst := e.dest, cdate := e.cdate, key := e.author },
+    sigOk := true }
+
+/-- the entity is one a peer accepts rows, references and records for: known to its data model, and not one of the
+    entities of a room definition -/
+def DataEnt (d : Ingest.Defects) (e : Ent) : Prop :=
+  Ingest.knownEnt e = true ∧ (d.authEntityUnchecked || !Ingest.authEnt e) = true
+
+theorem validateChange_tombs {df : Defects} {rooms : List Room} {caller : Key} {now : Int} {c : Change}
+    {t : List EdgeTomb} {rid : Id} (hroom : c.roomId = some rid) (h : validateChange df rooms caller now c = .ok t) :
+    t = c.edgeDels.map (tombOf rid caller now) := by
+  unfold validateChange at h
+  rw [hroom] at h
+  simp only at h
+  split at h
+  · cases h
+  · split at h
+    · cases h
+    · split at h
+      · split at h
+        · cases h
+        · cases h; rfl
+      · cases h
+
+/-- **the peer's verdict on the deletion record of a reference it holds**: the own-rows right when the reference is
+    the record's author's, the all-rows right otherwise, at the date of the deletion, in the room the record names -/
+theorem edge_record_verdict {d : Ingest.Defects} {p : Ingest.Inst} {rooms : List Room} (hp : p.rooms = rooms)
+    {se : Ent} (hent : DataEnt d se) {rid : Id} {caller : Key} {now : Int} {e : EdgeRow}
+    (hsrc : d.edgeDelSourceUnchecked = true ∨ Ingest.edgeDelSourceOk p (toEdgeDel se (tombOf rid caller now e)) = true)
+    (hheld : (p.edges.find? (Ingest.edgeMatches (toEdgeDel se (tombOf rid caller now e)))).map (·.key) = some e.author) :
+    Ingest.edgeDelAccepted d p (toEdgeDel se (tombOf rid caller now e)) =
+      canB rooms rid caller se now (if e.author = caller then .mutateSelf else .mutateAll) := by
+  unfold Ingest.edgeDelAccepted
+  rw [hheld, canIn_eq_canB hp]
+  have h3 : (d.edgeDelSourceUnchecked || Ingest.edgeDelSourceOk p (toEdgeDel se (tombOf rid caller now e))) = true := by
+    rcases hsrc with h | h <;> simp [h]
+  have h1 : Ingest.knownEnt (toEdgeDel se (tombOf rid caller now e)).srcEnt = true := hent.1
+  have h2 : (d.authEntityUnchecked || !Ingest.authEnt (toEdgeDel se (tombOf rid caller now e)).srcEnt) = true := hent.2
+  rw [h1, h2, h3]
+  simp only [Bool.true_and, Bool.and_self, Ingest.needRight, toEdgeDel, tombOf]
+  rfl
+
+/-- the local verdict with the intended behaviour = the row rule, and the all-rows right when a reference of
+    somebody else is removed -/
+theorem localOk_split {rooms : List Room} {caller : Key} {now : Int} {c : Change} {rid : Id}
+    (hroom : c.roomId = some rid) :
+    localOk Defects.none rooms caller now c =
+      (localOk { Defects.none with refRemovalRightOnRowAuthor := true } rooms caller now c &&
+        (!c.edgeDels.any (fun e => e.author != caller) || canB rooms rid caller c.entity now .mutateAll)) := by
+  unfold localOk validateChange canB
+  rw [hroom]
+  simp only
+  cases hr : getRoom rooms rid with
+  | none => simp [Except.toBool]
+  | some room =>
+    simp only [Defects.none, Bool.false_eq_true, if_false, Bool.not_false, Bool.true_and, Bool.not_true, Bool.false_and]
+    split
+    · simp [Except.toBool]
+    · cases hc : room.can caller c.entity now (needed c caller) <;> cases hany : c.edgeDels.any (fun e => e.author != caller) <;>
+        cases hall : room.can caller c.entity now .mutateAll <;> simp [Except.toBool]
+
+theorem localOk_can {df : Defects} {rooms : List Room} {caller : Key} {now : Int} {c : Change} {rid : Id}
+    (hroom : c.roomId = some rid) (h : localOk df rooms caller now c = true) :
+    canB rooms rid caller c.entity now (needed c caller) = true := by
+  unfold localOk validateChange at h
+  rw [hroom] at h
+  simp only at h
+  unfold canB
+  cases hr : getRoom rooms rid with
+  | none => rw [hr] at h; simp [Except.toBool] at h
+  | some room =>
+    rw [hr] at h
+    simp only at h
+    split at h
+    · simp [Except.toBool] at h
+    · cases hc : room.can caller c.entity now (needed c caller) with
+      | true => simp [hc]
+      | false => rw [hc] at h; simp [Except.toBool] at h
+
+/-- **the deletion records of a change whose row check passed**: the peer accepts them all iff no removed reference
+    is somebody else's or the caller holds the all-rows right -/
+theorem records_verdict {d : Ingest.Defects} {p : Ingest.Inst} {rooms : List Room} (hp : p.rooms = rooms)
+    {caller : Key} {now : Int} {c : Change} {rid : Id} (hent : DataEnt d c.entity)
+    (hnorm : ∀ room, getRoom rooms rid = some room → Normalised room)
+    (hsrc : ∀ e ∈ c.edgeDels, d.edgeDelSourceUnchecked = true ∨
+      Ingest.edgeDelSourceOk p (toEdgeDel c.entity (tombOf rid caller now e)) = true)
+    (hheld : ∀ e ∈ c.edgeDels,
+      (p.edges.find? (Ingest.edgeMatches (toEdgeDel c.entity (tombOf rid caller now e)))).map (·.key) = some e.author)
+    (hcan : canB rooms rid caller c.entity now (needed c caller) = true) :
+    (c.edgeDels.all fun e => Ingest.edgeDelAccepted d p (toEdgeDel c.entity (tombOf rid caller now e))) =
+      (!c.edgeDels.any (fun e => e.author != caller) || canB rooms rid caller c.entity now .mutateAll) := by
+  have hself : canB rooms rid caller c.entity now .mutateSelf = true := by
+    cases hnd : needed c caller with
+    | mutateSelf => rw [hnd] at hcan; exact hcan
+    | mutateAll => rw [hnd] at hcan; exact canB_all_self hnorm hcan
+  have hrec : ∀ e ∈ c.edgeDels, Ingest.edgeDelAccepted d p (toEdgeDel c.entity (tombOf rid caller now e)) =
+      canB rooms rid caller c.entity now (if e.author = caller then .mutateSelf else .mutateAll) :=
+    fun e he => edge_record_verdict hp hent (hsrc e he) (hheld e he)
+  cases hall : canB rooms rid caller c.entity now .mutateAll with
+  | true =>
+    simp only [Bool.or_true]
+    apply List.all_eq_true.mpr
+    intro e he
+    rw [hrec e he]
+    split
+    · exact hself
+    · exact hall
+  | false =>
+    simp only [Bool.or_false]
+    cases hany : c.edgeDels.any (fun e => e.author != caller) with
+    | true =>
+      obtain ⟨e, he, hne⟩ := List.any_eq_true.mp hany
+      have : e.author ≠ caller := by simpa using hne
+      simp only [Bool.not_true]
+      apply Bool.eq_false_iff.mpr
+      intro hcon
+      have := List.all_eq_true.mp hcon e he
+      rw [hrec e he, if_neg ‹e.author ≠ caller›, hall] at this
+      cases this
+    | false =>
+      simp only [Bool.not_false]
+      apply List.all_eq_true.mpr
+      intro e he
+      rw [hrec e he]
+      have : e.author = caller := by
+        have := List.any_eq_false.mp hany e he
+        simpa using this
+      rw [if_pos this]; exact hself
+
+/-- **change-level agreement, intended behaviour on the local side.** A change that writes row `n` into room `rid`
+    at date `now` is accepted locally iff a peer holding the same room definitions, the previous version of the row
+    and the references the change removes accepts the row AND every deletion record the change sends. -/
+theorem change_verdict_none {d : Ingest.Defects} {p : Ingest.Inst} {rooms : List Room} (hp : p.rooms = rooms)
+    {caller : Key} {now : Int} {c : Change} {n : Row} {rid : Id}
+    (hroom : c.roomId = some rid) (hn : n.room = some rid) (he : n.entity = c.entity) (hd : n.mdate = now)
+    (hold : ∀ o, c.old = some o → o.entity = c.entity ∧ o.room ≠ none)
+    (hent : DataEnt d c.entity) (hnorm : ∀ room, getRoom rooms rid = some room → Normalised room)
+    (hsrc : ∀ e ∈ c.edgeDels, d.edgeDelSourceUnchecked = true ∨
+      Ingest.edgeDelSourceOk p (toEdgeDel c.entity (tombOf rid caller now e)) = true)
+    (hheld : ∀ e ∈ c.edgeDels,
+      (p.edges.find? (Ingest.edgeMatches (toEdgeDel c.entity (tombOf rid caller now e)))).map (·.key) = some e.author) :
+    localOk Defects.none rooms caller now c =
+      (peerOk Ingest.Defects.none rooms caller c n &&
+        c.edgeDels.all fun e => Ingest.edgeDelAccepted d p (toEdgeDel c.entity (tombOf rid caller now e))) := by
+  rw [localOk_split hroom]
+  have hrow := row_verdict_of (df := { Defects.none with refRemovalRightOnRowAuthor := true }) (rooms := rooms)
+    (caller := caller) (now := now) (c := c) (n := n) rfl (Or.inl rfl) hroom hn he hd hold
+  rw [hrow]
+  cases hpk : peerOk Ingest.Defects.none rooms caller c n with
+  | false => simp
+  | true =>
+    have hcan := localOk_can hroom (hrow.trans hpk)
+    rw [records_verdict hp hent hnorm hsrc hheld hcan]
+
+/-- **an added reference reaches the peers.** If the right check of a change passed, a peer holding the same room
+    definitions, the written source row, and no reference with the same source, label and target accepts each
+    reference the change adds (signed by the caller, dated `now`). -/
+theorem reference_accepted {df : Defects} {d : Ingest.Defects} {p : Ingest.Inst} {rooms : List Room}
+    (hp : p.rooms = rooms) {caller : Key} {now : Int} {c : Change} {rid : Id} (hroom : c.roomId = some rid)
+    (hent : DataEnt d c.entity) (hnorm : ∀ room, getRoom rooms rid = some room → Normalised room)
+    (hlocal : localOk df rooms caller now c = true) {e : EdgeRow} (hdate : e.cdate = now)
+    (hsrc : d.edgeSourceUnchecked = true ∨
+      Ingest.edgeSourceOk p rid (toInEdge c.entity (signEdge caller e)).row = true)
+    (hfresh : d.edgeReplaceUnchecked = true ∨
+      p.edges.find? (Ingest.edgeKeyEq (toInEdge c.entity (signEdge caller e)).row) = none) :
+    Ingest.edgeAccepted d p rid p.edges (toInEdge c.entity (signEdge caller e)) = true := by
+  have hcan := localOk_can hroom hlocal
+  have hself : canB rooms rid caller c.entity now .mutateSelf = true := by
+    cases hnd : needed c caller with
+    | mutateSelf => rw [hnd] at hcan; exact hcan
+    | mutateAll => rw [hnd] at hcan; exact canB_all_self hnorm hcan
+  have hneed : Ingest.edgeNeed d p.edges (toInEdge c.entity (signEdge caller e)).row = .mutateSelf := by
+    unfold Ingest.edgeNeed
+    rcases hfresh with h | h
+    · simp [h]
+    · rw [h]; simp [Ingest.needRight]
+  unfold Ingest.edgeAccepted
+  rw [hneed, canIn_eq_canB hp]
+  have h3 : (d.edgeSourceUnchecked || Ingest.edgeSourceOk p rid (toInEdge c.entity (signEdge caller e)).row) = true := by
+    rcases hsrc with h | h <;> simp [h]
+  rw [h3]
+  simp only [toInEdge, signEdge, hdate, hent.1, hent.2, hself, Bool.and_self]
+
+/-! ### deletions -/
+
+/-- the record of a node deletion (`NodeDeletionEntry::build`) -/
+def nodeTombOf (rid : Id) (caller : Key) (now : Int) (row : Row) : NodeTomb :=
+  { room := rid, id := row.id, entity := row.entity, mdate := row.mdate, ddate := now, author := caller }
+
+/-- the references pointing to row `handle` from other rows may all be edited by the caller -/
+def incomingOk (rooms : List Room) (db : Db) (caller : Key) (now : Int) (handle : Nat) : Bool :=
+  (db.edges.filter fun e => e.dest = handle && e.src ≠ handle).all fun e => mayTouch rooms db caller now e.src
+
+theorem getRow_id {db : Db} {handle : Nat} {entity : Ent} {row : Row} (h : db.getRow handle entity = some row) :
+    row.id = handle ∧ row.entity = entity := by
+  have := List.find?_some h
+  simpa using this
+
+/-- **node deletion: local verdict = the peer's verdict on the record** (and, with the intended behaviour, the right
+    to edit the rows that reference the deleted one). The peer holds the same room definitions and the same row
+    (same author, same entity). Any switches on both sides. -/
+theorem delete_node_verdict {df : Defects} {d : Ingest.Defects} {p : Ingest.Inst} {rooms : List Room}
+    (hp : p.rooms = rooms) {db : Db} {caller : Key} {now : Int} {handle : Nat} {entity : Ent} {row : Row} {rid : Id}
+    (hrow : db.getRow handle entity = some row) (hr : row.room = some rid) (hent : DataEnt d entity)
+    {l : Ingest.NodeRow} (hheld : Ingest.localRow p.nodes handle = some l) (hlk : l.key = row.author)
+    (hle : l.ent = entity) :
+    (deleteNode df rooms db caller now handle entity).toBool =
+      ((df.incomingRefsUnchecked || incomingOk rooms db caller now handle) &&
+        Ingest.nodeDelAccepted d p (toNodeDel (nodeTombOf rid caller now row))) := by
+  obtain ⟨hid, hre⟩ := getRow_id hrow
+  have hacc : Ingest.nodeDelAccepted d p (toNodeDel (nodeTombOf rid caller now row)) =
+      canB rooms rid caller entity now (if row.author = caller then .mutateSelf else .mutateAll) := by
+    unfold Ingest.nodeDelAccepted
+    simp only [toNodeDel, nodeTombOf, hid, hheld, hre, hle, hent.1, hent.2, canIn_eq_canB hp, Bool.true_and,
+      Option.map_some, Ingest.needRight, hlk, decide_true, Bool.or_true]
+  rw [hacc]
+  unfold deleteNode incomingOk canB
+  rw [hrow]
+  simp only [hr]
+  cases hinc : df.incomingRefsUnchecked <;>
+    cases hall : (db.edges.filter fun e => e.dest = handle && e.src ≠ handle).all
+        (fun e => mayTouch rooms db caller now e.src) <;>
+    cases hg : getRoom rooms rid with
+    | none => simp [Except.toBool]
+    | some room =>
+      cases hc : room.can caller entity now (if row.author = caller then .mutateSelf else .mutateAll) <;>
+        simp [Except.toBool, hc]
+
+/-- the row a reference deletion re-dates and re-signs -/
+def resigned (caller : Key) (now : Int) (row : Row) : Row := { row with mdate := now, author := caller }
+
+/-- the peer's `validate_node` on the re-signed source row, given that it holds the previous version: the own-rows
+    right when that version is the caller's, the all-rows right otherwise -/
+theorem resigned_row_verdict {rooms : List Room} {caller : Key} {now : Int} {row : Row} {rid : Id}
+    (hr : row.room = some rid) :
+    Ingest.validateNode Ingest.Defects.none (peerWith rooms []) (toInNode (resigned caller now row))
+        (some (toNodeRow row)) =
+      canB rooms rid caller row.entity now (if row.author = caller then .mutateSelf else .mutateAll) := by
+  unfold Ingest.validateNode canB
+  simp [toInNode, toNodeRow, resigned, hr, canIn_peer, Ingest.needRight, Ingest.Defects.none]
+
+/-- **reference deletion, intended behaviour: local verdict = the peer's verdict on the re-signed source row AND on
+    the deletion record.** The peer holds the same room definitions, the source row and the reference. -/
+theorem delete_ref_verdict {df : Defects} (hdf : df.refRightOnEdgeAuthor = false) {d : Ingest.Defects}
+    {p : Ingest.Inst} {rooms : List Room} (hp : p.rooms = rooms) {db : Db} {caller : Key} {now : Int}
+    {handle : Nat} {entity : Ent} {label dest : Nat} {row : Row} {edge : EdgeRow} {rid : Id}
+    (hrow : db.getRow handle entity = some row) (hr : row.room = some rid)
+    (hedge : db.edges.find? (fun e => e.src = handle && e.label = label && e.dest = dest) = some edge)
+    (hent : DataEnt d entity) (hnorm : ∀ room, getRoom rooms rid = some room → Normalised room)
+    (hsrc : d.edgeDelSourceUnchecked = true ∨
+      Ingest.edgeDelSourceOk p (toEdgeDel entity (tombOf rid caller now edge)) = true)
+    (hheld : (p.edges.find? (Ingest.edgeMatches (toEdgeDel entity (tombOf rid caller now edge)))).map (·.key)
+      = some edge.author) :
+    (deleteRef df rooms db caller now handle entity label dest).toBool =
+      (Ingest.validateNode Ingest.Defects.none (peerWith rooms []) (toInNode (resigned caller now row))
+          (some (toNodeRow row)) &&
+        Ingest.edgeDelAccepted d p (toEdgeDel entity (tombOf rid caller now edge))) := by
+  obtain ⟨_, hre⟩ := getRow_id hrow
+  rw [resigned_row_verdict hr, edge_record_verdict hp hent hsrc hheld, hre]
+  have himp : canB rooms rid caller entity now .mutateAll = true → canB rooms rid caller entity now .mutateSelf = true :=
+    canB_all_self hnorm
+  unfold deleteRef
+  rw [hrow]
+  simp only [hedge, hr, hdf, Bool.false_eq_true, if_false]
+  unfold canB at himp ⊢
+  cases hg : getRoom rooms rid with
+  | none => simp [Except.toBool]
+  | some room =>
+    rw [hg] at himp
+    simp only at himp ⊢
+    by_cases he : edge.author = caller <;> by_cases hw : row.author = caller <;>
+      cases hs : room.can caller entity now .mutateSelf <;> cases ha : room.can caller entity now .mutateAll <;>
+      simp_all [Except.toBool]
+
+/-- **reference deletion, the code as it is: the local verdict is the peer's verdict on the deletion record** —
+    nothing is asked for the source row that is re-signed (see `C12_breaks_refRightOnEdgeAuthor`). -/
+theorem delete_ref_verdict_record {df : Defects} (hdf : df.refRightOnEdgeAuthor = true) {d : Ingest.Defects}
+    {p : Ingest.Inst} {rooms : List Room} (hp : p.rooms = rooms) {db : Db} {caller : Key} {now : Int}
+    {handle : Nat} {entity : Ent} {label dest : Nat} {row : Row} {edge : EdgeRow} {rid : Id}
+    (hrow : db.getRow handle entity = some row) (hr : row.room = some rid)
+    (hedge : db.edges.find? (fun e => e.src = handle && e.label = label && e.dest = dest) = some edge)
+    (hent : DataEnt d entity)
+    (hsrc : d.edgeDelSourceUnchecked = true ∨
+      Ingest.edgeDelSourceOk p (toEdgeDel entity (tombOf rid caller now edge)) = true)
+    (hheld : (p.edges.find? (Ingest.edgeMatches (toEdgeDel entity (tombOf rid caller now edge)))).map (·.key)
+      = some edge.author) :
+    (deleteRef df rooms db caller now handle entity label dest).toBool =
+      Ingest.edgeDelAccepted d p (toEdgeDel entity (tombOf rid caller now edge)) := by
+  rw [edge_record_verdict hp hent hsrc hheld]
+  unfold deleteRef
+  rw [hrow]
+  simp only [hedge, hr, hdf, if_true]
+  unfold canB
+  cases hg : getRoom rooms rid with
+  | none => simp [Except.toBool]
+  | some room =>
+    simp only
+    by_cases he : edge.author = caller <;>
+      cases hs : room.can caller entity now .mutateSelf <;> cases ha : room.can caller entity now .mutateAll <;>
+      simp_all [Except.toBool]
+
+/-- a peer that holds the room definitions `rooms` and the rows and references of `db` (`se`: the source entity of a
+    reference label) -/
+def peerHolding (rooms : List Room) (db : Db) (se : Nat → Ent) : Ingest.Inst :=
+  { rooms, nodes := db.rows.map toNodeRow, edges := db.edges.map fun e => (toInEdge (se e.label) e).row,
+    nodeLog := [], edgeLog := [] }
 
 end Discret.LocalWrite
